@@ -8,7 +8,7 @@ import common
 from common import prove, driver
 
 P = "Matid.Props.C08."
-THEOREMS = [P + t for t in ("repSolvable_all", "params_sound", "representative_hits_an_atom", "act_add_int", "wrapParam_range", "flag_iff")]
+THEOREMS = [P + t for t in ("repSolvable_all", "params_sound", "representative_hits_an_atom", "act_add_int", "wrapParam_range", "flag_iff", "params_complete")]
 TRUSTED = ["Lean 4 kernel", "axioms: propext, Classical.choice, Quot.sound at most (audited per run)",
            "tools/gen_tables.py, tools/gen_wyckoff_rule.py (AST translator of the reading rule and first tolerance)",
            "correspondence harness driving SymmetryAnalyzer._get_wyckoff_sets with synthetic sets (no spglib involved)"]
